@@ -40,7 +40,7 @@ def diff(a, b, limit=6):
                 if v is None:
                     return 'absent'
                 if v[0] == 'file':
-                    return f'file[{len(v[2])}B]'
+                    return f'file[{len(v[-1])}B]'
                 return str(v)
             d.append(f'{k}: {brief(x)} -> {brief(y)}')
     return d[:limit]
